@@ -396,6 +396,7 @@ func (p *specParser) postfix(e specExpr) specExpr {
 // ---------------------------------------------------------------- contract files
 
 type clause struct {
+	uses    []string // labels of the loop invariants this clause's proof needs (nil = all)
 	label   string
 	src     string
 	expr    specExpr
@@ -447,10 +448,12 @@ type FuncSpec struct {
 	modifies     []string
 	hasModifies  bool
 	reads        []string
+	opaque       map[string]bool // callees whose postconditions are not unfolded here (only lemmas about them are used)
 	safety       bool
 	nopanic      bool
 	arithChecked bool
 	pure         bool
+	persite      bool // decide each site of an obligation separately from the start
 	slots        []*slotClause
 	line         specLine
 	assumeOnly   bool // contract assumed, not verified (listed in trusted base)
@@ -512,6 +515,14 @@ func splitLabel(s string) (label, rest string) {
 			}
 			return s[:i], strings.TrimSpace(s[i+1:])
 		}
+		if ch == '{' {
+			j := strings.Index(s[i:], "}")
+			if j < 0 {
+				return "", s
+			}
+			i += j
+			continue
+		}
 		if !(unicode.IsLetter(rune(ch)) || unicode.IsDigit(rune(ch)) || ch == '_' || ch == '.' || ch == '-' || ch == '$') {
 			return "", s
 		}
@@ -521,7 +532,7 @@ func splitLabel(s string) (label, rest string) {
 
 var clauseKeywords = map[string]bool{"func": true, "property": true, "ghost": true, "requires": true, "ensures": true, "loop": true,
 	"modifies": true, "reads": true, "safety": true, "nopanic": true, "arith": true, "pure": true, "slots": true, "kinds": true, "spec": true,
-	"lemma": true, "axiom": true, "assumed": true, "cover": true, "timeout": true, "macro": true, "immutable": true}
+	"lemma": true, "axiom": true, "assumed": true, "cover": true, "timeout": true, "macro": true, "immutable": true, "opaque": true, "persite": true}
 
 // parseContracts parses the //@ lines of one package.
 func (ss *SpecSet) parseContracts(pkg string, lines []specLine) {
@@ -554,12 +565,27 @@ func (ss *SpecSet) parseContracts(pkg string, lines []specLine) {
 	}
 	mkClause := func(l specLine, rest string) *clause {
 		label, src := splitLabel(rest)
+		var uses []string
+		hasUses := false
+		if i := strings.Index(label, "{"); i >= 0 && strings.HasSuffix(label, "}") {
+			hasUses = true
+			for _, u := range strings.Split(label[i+1:len(label)-1], ",") {
+				if u = strings.TrimSpace(u); u != "" {
+					uses = append(uses, u)
+				}
+			}
+			label = label[:i]
+			if uses == nil {
+				uses = []string{}
+			}
+		}
+		_ = hasUses
 		e, err := parseSpecExpr(src)
 		if err != nil {
 			fail(l, "%v", err)
 			return nil
 		}
-		return &clause{label: label, src: src, expr: e, line: l}
+		return &clause{label: label, src: src, expr: e, line: l, uses: uses}
 	}
 	if ss.specFn[pkg] == nil {
 		ss.specFn[pkg] = map[string]*specFunc{}
@@ -704,6 +730,13 @@ func (ss *SpecSet) parseContracts(pkg string, lines []specLine) {
 					cur.modifies = append(cur.modifies, m)
 				}
 			}
+		case "opaque":
+			if cur.opaque == nil {
+				cur.opaque = map[string]bool{}
+			}
+			for _, m := range strings.Fields(strings.ReplaceAll(rest, ",", " ")) {
+				cur.opaque[m] = true
+			}
 		case "reads":
 			for _, m := range strings.Split(rest, ",") {
 				if m = strings.TrimSpace(m); m != "" {
@@ -718,6 +751,8 @@ func (ss *SpecSet) parseContracts(pkg string, lines []specLine) {
 			cur.arithChecked = strings.Contains(rest, "checked")
 		case "pure":
 			cur.pure = true
+		case "persite":
+			cur.persite = true
 		case "assumed":
 			cur.assumeOnly = true
 		case "timeout":
